@@ -146,6 +146,15 @@ func loadEngine(repo string) (*Engine, error) {
 					key = fc.Key
 				}
 			}
+			if key == fc.Key && fc.Assume {
+				// contract on a function of another package (stdlib): scoped
+				// to the declaring package, and global if it is the first
+				e.contracts[cf.Pkg+"@"+key] = fc
+				if _, dup := e.contracts[key]; !dup {
+					e.contracts[key] = fc
+				}
+				continue
+			}
 			if _, dup := e.contracts[key]; dup {
 				return e, fmt.Errorf("duplicate contract for %s", key)
 			}
